@@ -7,6 +7,7 @@ mod c17;
 mod c18;
 mod c25;
 mod c29;
+mod c20;
 mod gens;
 mod lang;
 mod vrlrun;
@@ -30,6 +31,7 @@ const EXECS: &[Exec] = &[
     c11::exec,
     c25::exec,
     c29::exec,
+    c20::exec,
 ];
 
 /// Run one case (`op` + inputs) on the implementation: the first module that recognises the op answers.
@@ -51,6 +53,7 @@ fn generate(prop: &str, sink: &mut sink::Sink, rng: &mut rng::Rng, n: u64) -> bo
         "C11" => c11::generate(sink, rng, n),
         "C25" => c25::generate(sink, rng, n),
         "C29int" => c29::generate(sink, rng, n),
+        "C20" => c20::generate(sink, rng, n),
         _ => return false,
     }
     true
